@@ -1081,7 +1081,89 @@ class Builder:
             return N("recognize", e, p=self.pe(recv, env))
         if m == "by_ref" and not args:
             return self.pe(recv, env)
+        mb = self._pe_method_builder(e, env)
+        if mb is not None:
+            return mb
         return N("opaque", e, src=src(e), why="unmodelled method ." + m)
+
+    def _value_ast(self, v, l=None):
+        """expression node denoting a concrete value computed by vlib/probe.py (texts, characters, numbers, field-less enum
+        variants, tuples of those), or None"""
+        if isinstance(v, bool):
+            return {"k": "lit", "l": l, "t": "bool", "v": v}
+        if isinstance(v, int):
+            return {"k": "lit", "l": l, "t": "int", "v": v}
+        if isinstance(v, str):
+            return {"k": "lit", "l": l, "t": "str", "v": v}
+        if isinstance(v, tuple) and len(v) == 3 and v[0] == "enum" and not v[2] and "::" in v[1]:
+            return {"k": "path", "l": l, "segs": v[1].split("::")[-2:], "gen": [[], []], "qself": None, "global": False}
+        if isinstance(v, list):
+            xs = [self._value_ast(x, l) for x in v]
+            return None if any(x is None for x in xs) else {"k": "tuple", "l": l, "elems": xs}
+        return None
+
+    def _pe_method_builder(self, e, env):
+        """`Connective::Or.parser()`: a method of one of the crate's enums, called on a field-less variant, that *builds* a
+        parser.  Expanded like a parser-building function: the body with `self` (and the parameters) replaced by what they
+        stand for; `let` statements computing plain values from them (`let (long, short) = self.spellings();`) are evaluated."""
+        recv, m, args = e["recv"], e["m"], e["args"]
+        if not (recv.get("k") == "path" and len(recv["segs"]) >= 2):
+            return None
+        en, var = recv["segs"][-2], recv["segs"][-1]
+        if en not in self.facts.enums or var not in self.facts.variants(en) or self.facts.variant_fields(en, var):
+            return None
+        fn = self.facts.fns.get("%s::%s" % (en, m))
+        if fn is None or fn.test or fn.node.get("self") is None or "Parser<" not in F.norm_ty(fn.node["output"]) or self._input_name(fn) is not None:
+            return None
+        params = [n_ for n_, _ in fn.params if n_ != "self"]
+        if len(params) != len(args) or not all(params) or len(self.stack) >= 40:
+            return None
+        from .normalise import _subst
+        from . import probe as P
+
+        real = [s_ for s_ in fn.body["stmts"] if s_["k"] != "item"]
+        if not real or real[-1]["k"] != "expr" or real[-1].get("semi"):
+            return None
+        sub = {"self": recv}
+        sub.update({n_: a_ for n_, a_ in zip(params, args)})
+        for s_ in real[:-1]:
+            if s_["k"] != "let" or s_.get("init") is None or s_.get("else") is not None:
+                return None
+            init = _subst(s_["init"], sub)
+            pat = s_["pat"]
+            while pat["k"] == "typed":
+                pat = pat["pat"]
+            if pat["k"] == "ident" and self._maybe_parser_value(init, dict(env, __module=fn.module)) is not None:
+                sub[pat["name"]] = init
+                continue
+            # a value: computed now
+            try:
+                pr = P.Probe(self.facts, en, tuple(fn.module))
+                val = pr.ev(init, {})
+                bound = pr.pmatch(s_["pat"], val, {})
+            except (P.NoEval, P.Panic):
+                return None
+            if bound is None:
+                return None
+            for n_, v_ in bound.items():
+                ast_ = self._value_ast(v_, s_.get("l"))
+                if ast_ is None:
+                    return None
+                sub[n_] = ast_
+        body = _subst(real[-1]["e"], sub)
+        mk = ("expand", fn.key)
+        if self.stack.count(mk) >= 3:
+            return None
+        self.stack.append(mk)
+        try:
+            env2 = dict(env)
+            if tuple(fn.module) != tuple(env["__module"]):
+                env2["__module_fallback"] = env["__module"]
+                env2["__module"] = fn.module
+            node = self.pe(body, env2)
+        finally:
+            self.stack.pop()
+        return dict(node, expanded_from=fn.key) if isinstance(node, dict) else node
 
     def _unit_values(self, f, env, cs):
         """[(char, path expression of the constant)] when the function maps every accepted character to a field-less enum
